@@ -128,6 +128,8 @@ func (w *hWorld) hCall() (r Result, built bool, panicked bool, pmsg string) {
 		}()
 		r = w.Funcs[0].Call(args...)
 	}()
+	// outcome class is iteration-order independent (C05): usable as a cross-validation digest
+	vnTrace(fmt.Sprintf("outcome=%d", hOutcome(r, panicked)))
 	return r, true, panicked, pmsg
 }
 
